@@ -239,8 +239,9 @@ func (c *EvalCtx) eval(e Expr) Val {
 			return Val{K: KScalar, S: sel(x.S, i.S), Sort: x.GV}
 		case KScalar:
 			if x.T != nil {
-				if _, ok := x.T.Underlying().(*types.Map); ok {
-					v, _ := eng.mapLoad(c.p, c.snap(), x.T, x.S, i.S)
+				if mt, ok := x.T.Underlying().(*types.Map); ok {
+					// specifications: m[k] of a reference-valued map is the stored value (guard with in(k, m))
+					v, _ := eng.mapLoadX(c.p, c.snap(), x.T, x.S, i.S, refValued(mt.Elem()))
 					return v
 				}
 			}
@@ -251,7 +252,8 @@ func (c *EvalCtx) eval(e Expr) Val {
 		var binders []string
 		for _, qv := range e.Vars {
 			srt, t := c.specSort(qv.Type)
-			name := "|q:" + qv.Name + "|"
+			eng.qcounter++
+			name := fmt.Sprintf("|q:%s.%d|", qv.Name, eng.qcounter)
 			binders = append(binders, "("+name+" "+srt+")")
 			vars[qv.Name] = Val{K: KScalar, T: t, S: name, Sort: srt}
 		}
@@ -613,6 +615,26 @@ func (c *EvalCtx) evalCall(e *ECall) Val {
 			c.fail("unknown type %s", tn)
 		}
 		return boolVal(eq(v.Tag, eng.typeID(t)))
+	case "asref":
+		v := c.eval(e.Args[0])
+		t := c.resolveType(strings.Trim(e.Args[1].String(), `"`))
+		if t == nil {
+			c.fail("asref: unknown type %s", e.Args[1].String())
+		}
+		return Val{K: KScalar, T: t, S: v.S}
+	case "tagof":
+		v := c.eval(e.Args[0])
+		if v.K != KIface {
+			c.fail("tagof needs an interface value")
+		}
+		return intVal(v.Tag)
+	case "typeid":
+		tn := strings.Trim(e.Args[0].String(), `"`)
+		t := c.resolveType(tn)
+		if t == nil {
+			c.fail("unknown type %s", tn)
+		}
+		return intVal(eng.typeID(t))
 	case "payload":
 		v := c.eval(e.Args[0])
 		if v.K != KIface {
